@@ -1,4 +1,3 @@
-import BareModel.Gen.Regex
 import BareProofs.C14Lemmas
 
 /-!
@@ -13,7 +12,8 @@ Every theorem is for **all** values: unbounded depth and length, strings and key
 every indent (`ind = 0` is "no indent").  Hypothesis `WF v`: the text of every `dec` number is in the `repr` grammar
 (`reprDec`, an assumption about `float.__repr__`) and object keys are unique.
 
-* `cleanup_regex_is_modelled`  the pattern in `value.py` is the one the scanner `clean` was written for (generated table)
+* `cleanup_regex_is_modelled`  (in `BareProofs/C14Regex.lean`) the pattern in `value.py` is the one the scanner `clean` was
+                               written for (generated table)
 * `strings_untouched`          stage 2 copies a string literal verbatim, whatever precedes or follows it
 * `cleanup_eq_spec`            stage 2 ∘ stage 1 = spec encoder (only the `.0` of integral floats disappears)
 * `string_roundtrip`           unescape ∘ escape = id on all strings (incl. `\uXXXX`, surrogate pairs, controls)
@@ -26,13 +26,6 @@ every indent (`ind = 0` is "no indent").  Hypothesis `WF v`: the text of every `
 
 namespace C14
 open Json
-
-/-- The clean-up pattern of `value.py` (regenerated from the working tree on every run) is the one `Json.clean`
-re-implements: a changed pattern breaks this obligation. -/
-theorem cleanup_regex_is_modelled :
-    Gen.regexes.filter (fun e => e.1 == "value._R_VALUE_JSON_NUMBER_CLEANUP") =
-      [("value._R_VALUE_JSON_NUMBER_CLEANUP", "(\"(?:[^\"\\\\]|\\\\.)*\")|\\.0+(?=[,}\\]\\s]|$)", 32)] := by
-  decide
 
 /-- **strings_untouched**: the clean-up pass copies the literal of *any* string `s` verbatim and resumes after it, in any
 context `rest` (even `.0,` directly inside or after the literal); in particular a string value or a key is serialised as
@@ -92,11 +85,11 @@ theorem json_injective (v w : JValue) (hv : WF v) (hw : WF w) (i j : Nat)
   exact (Option.some.inj h1).symm
 
 /-- **keys_sorted**: in the serialised text the members of every object appear in ascending key order (the decoder keeps
-text order). -/
+text order), and no key occurs twice (`WF v'`), so the decoded member lists are dictionaries. -/
 theorem keys_sorted (v : JValue) (h : WF v) (ind : Nat) :
-    ∃ v', decode (mirrorEncode v ind) = some v' ∧ KeysSorted v' := by
+    ∃ v', decode (mirrorEncode v ind) = some v' ∧ KeysSorted v' ∧ WF v' := by
   obtain ⟨v', h1, _, rfl⟩ := json_roundtrip v h ind
-  exact ⟨_, h1, keysSorted_norm v⟩
+  exact ⟨_, h1, keysSorted_norm v, wf_norm v h⟩
 
 /-! ### integral numbers -/
 
